@@ -82,6 +82,8 @@ func runInput(t *testing.T, in Input) (Observed, []Duty, History) {
 			}
 			objs = ds
 		}()
+		// the order of the duties in MergeDuties' result is not C04's matter: by slot here
+		sort.SliceStable(objs, func(a, b int) bool { return objs[a].Slot() < objs[b].Slot() })
 		for _, d := range objs {
 			merged = append(merged, ReadDuty(d))
 		}
@@ -154,10 +156,15 @@ func genMerged(r *Rand, traceLog bool) (Input, []string) {
 	fam := map[string]bool{"merged-duties": true}
 	epoch := uint64(r.Range(0, 60))
 	nslots := r.Range(2, 4)
+	span := h.SPE
+	if r.Chance(1, 4) {
+		span = 2 * h.SPE // the answer covers two epochs: a validator may have a duty in each
+		fam["merged-two-epochs"] = true
+	}
 	offs := map[uint64]bool{}
 	var slots []uint64
 	for len(slots) < nslots {
-		o := uint64(r.Intn(int(h.SPE)))
+		o := uint64(r.Intn(int(span)))
 		if !offs[o] {
 			offs[o] = true
 			slots = append(slots, epoch*h.SPE+o)
@@ -187,16 +194,26 @@ func genMerged(r *Rand, traceLog bool) (Input, []string) {
 	usedPos := map[[3]uint64]bool{}
 	valsAt := make([][]uint64, nslots)
 	var all []uint64
+	epochsOf := map[uint64][]uint64{} // validator -> epochs in which it has a duty already
 	for i := 0; i < n; i++ {
-		v := uint64(r.Range(0, 40))
-		for seen[v] {
-			v = uint64(r.Range(0, 40))
-		}
-		seen[v] = true
 		k, c := r.Intn(nslots), r.Intn(ncomm)
 		if i < 2 {
 			k, c = i, c0
 		}
+		v := uint64(r.Range(0, 40))
+		for seen[v] {
+			v = uint64(r.Range(0, 40))
+		}
+		if len(all) > 0 && span > h.SPE && r.Chance(1, 2) {
+			// a validator of another slot once more, if that slot is in another epoch
+			w := all[r.Intn(len(all))]
+			if !containsU(epochsOf[w], slots[k]/h.SPE) {
+				v = w
+				fam["merged-validator-in-two-epochs"] = true
+			}
+		}
+		seen[v] = true
+		epochsOf[v] = append(epochsOf[v], slots[k]/h.SPE)
 		sz := size[k][c]
 		pos := uint64(r.Intn(int(sz)))
 		if r.Chance(1, 4) {
@@ -209,7 +226,9 @@ func genMerged(r *Rand, traceLog bool) (Input, []string) {
 		usedPos[[3]uint64{uint64(k), uint64(c), pos}] = true
 		in.Api = append(in.Api, ApiDuty{Slot: slots[k], Val: v, Comm: uint64(c), Pos: pos, Len: sz, Cas: uint64(ncomm)})
 		valsAt[k] = append(valsAt[k], v)
-		all = append(all, v)
+		if !containsU(all, v) {
+			all = append(all, v)
+		}
 	}
 	// the beacon node's answer is in no particular order
 	for i := len(in.Api) - 1; i > 0; i-- {
@@ -232,7 +251,7 @@ func genMerged(r *Rand, traceLog bool) (Input, []string) {
 	}
 	if len(pre) > 0 {
 		// an earlier call of the same epoch (duty built directly) marks them as already attested
-		pslot := epoch*h.SPE + uint64(r.Intn(int(h.SPE)))
+		pslot := (slots[r.Intn(nslots)]/h.SPE)*h.SPE + uint64(r.Intn(int(h.SPE)))
 		pd := Duty{Slot: pslot, Sizes: [][2]uint64{{9, 64}}}
 		for i, v := range pre {
 			pd.Vals = append(pd.Vals, v)
